@@ -41,6 +41,7 @@ def run_case(case, tag='st'):
         failed = {}
         for pid in case['props']:
             ctx = core.Ctx(pid, facts, 'quick', 0, fp)
+            ctx.skip_rules = set(props.PROPS[pid].get('skip_rules', ()))
             for rule in props.PROPS[pid]['rules']:
                 ctx.guarded(rule.__name__, rule.__module__, lambda: rule(ctx))
             failed[pid] = [o.key for o in ctx.obs if not o.ok]
